@@ -219,12 +219,33 @@ inductive Decoded
   | panic
   deriving DecidableEq, Repr
 
+/-- One optional SAP byte of `DataTelegram::deserialize`: `buffer[0]` is read *before* the length
+check (`.error .panic` = that index is out of range), then `length -= 1; buffer = &buffer[1..]`. -/
+def takeSap (has : Bool) (b : Bytes) (len : Nat) : Except Decoded (Option UInt8 × Bytes × Nat) :=
+  if has then
+    if b.length = 0 then .error .panic
+    else if len < 1 then .error .reject
+    else .ok (some (b.getD 0 0), b.drop 1, len - 1)
+  else .ok (none, b, len)
+
+/-- Tail of `DataTelegram::deserialize`: PDU slice, checksum, end delimiter.
+`b` = buffer from the (repeated) start delimiter, `b6` = buffer behind the SAP bytes. -/
+def finishData (b b6 : Bytes) (len len2 total : Nat) (mk : Bytes → Telegram) : Decoded :=
+  -- `&buffer[..length]`, `buffer[length]`, `buffer[length + 1]`, `buffer_checksum[..checksum_length]`
+  if b6.length ≤ len2 + 1 then .panic else
+  if b.length - 1 < len + 3 then .panic else
+  let pdu := b6.take len2
+  let fcsRx := b6.getD len2 0
+  let fcsCalc := checksum ((b.drop 1).take (len + 3))
+  if fcsRx ≠ fcsCalc then .reject else
+  if b6.getD (len2 + 1) 0 ≠ ED then .reject else
+  .accept (mk pdu) total
+
 /-- Second half of `DataTelegram::deserialize`, after the start delimiter has been dealt with.
 `b` is the buffer as the Rust code sees it at that point (for SD2 the first three bytes have been
 stripped by `buffer = &buffer[3..]`, so `b[0]` is the (repeated) start delimiter in every case),
 `len` = announced payload length (incl. SAP bytes), `total` = announced frame length.
-Every `if … then .panic` line is the bounds check Rust performs for the index/slice expression
-named in the comment. -/
+Every `.panic` is the bounds check Rust performs for the index/slice expression named in the comment. -/
 def deserializeBody (b : Bytes) (len total : Nat) : Decoded :=
   if b.length < len + 6 then .needMore else
   -- `&buffer[1..]`, `buffer[1]`, `buffer[2]`, `buffer[3]`
@@ -240,28 +261,14 @@ def deserializeBody (b : Bytes) (len total : Nat) : Decoded :=
   | .ok fc =>
     -- `let mut buffer = &buffer[4..]`
     if b.length < 4 then .panic else
-    let b4 := b.drop 4
-    -- DSAP: `buffer[0]` is read before the length check
-    if hasDsap ∧ b4.length = 0 then .panic else
-    if hasDsap ∧ len < 1 then .reject else
-    let dsap := if hasDsap then some (b4.getD 0 0) else none
-    let b5 := if hasDsap then b4.drop 1 else b4
-    let len1 := if hasDsap then len - 1 else len
-    -- SSAP
-    if hasSsap ∧ b5.length = 0 then .panic else
-    if hasSsap ∧ len1 < 1 then .reject else
-    let ssap := if hasSsap then some (b5.getD 0 0) else none
-    let b6 := if hasSsap then b5.drop 1 else b5
-    let len2 := if hasSsap then len1 - 1 else len1
-    -- `&buffer[..length]`, `buffer[length]`, `buffer[length + 1]`, `buffer_checksum[..checksum_length]`
-    if b6.length ≤ len2 + 1 then .panic else
-    if b.length - 1 < len + 3 then .panic else
-    let pdu := b6.take len2
-    let fcsRx := b6.getD len2 0
-    let fcsCalc := checksum ((b.drop 1).take (len + 3))
-    if fcsRx ≠ fcsCalc then .reject else
-    if b6.getD (len2 + 1) 0 ≠ ED then .reject else
-    .accept (.data { da := da, sa := sa, dsap := dsap, ssap := ssap, fc := fc } pdu) total
+    match takeSap hasDsap (b.drop 4) len with
+    | .error e => e
+    | .ok (dsap, b5, len1) =>
+    match takeSap hasSsap b5 len1 with
+    | .error e => e
+    | .ok (ssap, b6, len2) =>
+    finishData b b6 len len2 total
+      (fun pdu => .data { da := da, sa := sa, dsap := dsap, ssap := ssap, fc := fc } pdu)
 
 /-- `DataTelegram::deserialize`. -/
 def deserializeData (bs : Bytes) : Decoded :=
